@@ -8,9 +8,9 @@ import (
 
 func init() {
 	register(&propInfo{
-		ID:     "C05",
-		Run:    runC05,
-		MinObl: 10,
+		ID:          "C05",
+		Run:         runC05,
+		MinObl:      10,
 		Explanation: "Decided: R1 every success exit of the refresh-validate function carries client-id(stored)==client-id(request) (mismatch → ErrInvalidGrant), Has(client grant types, refresh_token), and (no refresh scopes configured ∨ HasOneOf(granted scopes of stored, configured scopes)); R2 every GrantScope in that function is preceded on its path by the configured scope strategy accepting that very element against the requesting client's scopes, and GrantAudience/success by the audience strategy returning nil for (client audience, stored granted audience); R3 scopes/audience/session are overwritten from the stored request only (session through Clone) and grants are elements of the stored grant; R4 every GenerateRefreshToken/CreateRefreshTokenSession in the code and device redeem functions is reached only under (no scopes configured ∨ HasOneOf(granted, configured)) ∧ Has(client grant types, refresh_token); in the password flow under the first conjunct. NOT decided: the strategies' verdicts themselves (C12), histories.",
 	})
 }
@@ -83,9 +83,9 @@ func runC05(c *Ctx) {
 	}
 	// R4 issuance rule
 	type en struct {
-		role   string
-		fns    []*ssa.Function
-		grant  bool
+		role  string
+		fns   []*ssa.Function
+		grant bool
 	}
 	ens := []en{
 		{"code-redeem", c.codeRedeemFns(), true},
